@@ -2,6 +2,7 @@ import DaskModel.DriverLib
 import DaskModel.Model.Sched
 import DaskModel.Model.Callbacks
 import DaskModel.Model.Diagnostics
+import DaskModel.Model.SchedWarm
 open Dask
 open Dask.Sched
 
@@ -343,11 +344,28 @@ def hCacheRun : Handler := handler fun args =>
                  SExp.ofNats (r.log.filterMap (fun p => match p.1 with | .pretask k => some k | _ => none))])
   | _ => none
 
+/-- `(warm_plan nodes results cache0)` ↦ `(sound (exec…) (reach…))`: what the theorems of `Props/C01xCache` predict for a run
+with the caller-supplied cache `cache0`: `sound` = every cached key holds the value the graph denotes for it (hypothesis
+`CacheSound`), `exec` = the tasks that are executed (not cached, reachable from the request in the warm graph), `reach` = the
+keys `start_state_from_dask` visits (all sorted) -/
+def hWarmPlan : Handler := handler fun args =>
+  match args with
+  | [nodes, results, cache0] => do
+    let gi ← decNodes nodes
+    let results ← results.toNats?
+    let cache0 ← decIntMap cache0
+    let P := mkParams gi []
+    pure (.list [SExp.ofBool (cacheSoundB gi.g P (gi.g.length + 1) cache0),
+                 SExp.ofNats (sortNat (expectedExec gi.g cache0 results)),
+                 SExp.ofNats (sortNat (reachSet (warmGraph gi.g cache0) results))])
+  | _ => none
+
 end SchedDrv
 
 def table : List (String × Handler) :=
   [("run", SchedDrv.hRun), ("start_state", SchedDrv.hStart), ("finish_task", SchedDrv.hFinish),
    ("release_data", SchedDrv.hRelease), ("denote", SchedDrv.hDenote), ("nested_get", SchedDrv.hNested),
-   ("cbrun", SchedDrv.hCbRun), ("cbexec", SchedDrv.hCbExec), ("prof", SchedDrv.hProf), ("cprof", SchedDrv.hCProf), ("cache_run", SchedDrv.hCacheRun)]
+   ("cbrun", SchedDrv.hCbRun), ("cbexec", SchedDrv.hCbExec), ("prof", SchedDrv.hProf), ("cprof", SchedDrv.hCProf), ("cache_run", SchedDrv.hCacheRun),
+   ("warm_plan", SchedDrv.hWarmPlan)]
 
 def main : IO Unit := runDriver table
